@@ -4,3 +4,7 @@ open Photon.Sync
 #print axioms C06_grant_guard
 #print axioms C06_failed_noop
 #print axioms C06_no_stuck
+#print axioms Photon.RwSpec.C06_api_grant
+#print axioms Photon.RwSpec.C06_api_failed_noop
+#print axioms Photon.RwSpec.C06_api_admitted
+#print axioms Photon.RwSpec.C06_api_excl
